@@ -164,6 +164,21 @@ def _prelude(pre, carve):
 REJECT = (ValueError, TypeError)
 
 
+def _snap(c):
+    return (list(c.partition_by), list(c.name_to_uuid.items()), list(c.uuid_to_name.items()), set(c.group_by), c.limit, c.is_filtered, list(c.cols.keys()), set(c.derived_from))
+
+
+def _same_snap(a, b):
+    def same(x, y):
+        if isinstance(x, (list, tuple)):
+            return isinstance(y, (list, tuple)) and len(x) == len(y) and all(same(p, q) for p, q in zip(x, y))
+        if isinstance(x, str):
+            return x is y  # names may be symbolic: the same object must still be there
+        return x == y
+
+    return same(a, b)
+
+
 def run_step_sql(pre_factory, label, fn):
     def run(carve):
         plmodel.reset_state()
@@ -173,6 +188,7 @@ def run_step_sql(pre_factory, label, fn):
 
         def body():
             t = pre.table()
+            s0 = _snap(t._cache)
             with TS.sql_step([pre]) as real_compile:
                 try:
                     new = fn(pre, t)
@@ -186,7 +202,7 @@ def run_step_sql(pre_factory, label, fn):
                     needed = {inv[u]: 1 for u in needed}
                 state = real_compile(node, needed)
                 sel = H.sqlite_backend.SqliteImpl.compile_query(*state)
-                return ("ok", new, state, sel)
+                return ("ok", new, state, sel, _same_snap(s0, _snap(t._cache)))
 
         paths = explore(body, base_pc=pre.facts + extra, catch=(Exception,))
         vc = VC(f"[{pre.skel}] {label}: Cache after the verb satisfies M1 and is coupled (J') with the state computed by SqlImpl.compile_ast; the SELECT built by compile_query lists columns() in order")
@@ -198,9 +214,10 @@ def run_step_sql(pre_factory, label, fn):
             if p.value[0] == "rejected":
                 vc.queries += 1
                 continue
-            _, new, state, sel = p.value
+            _, new, state, sel, parent_same = p.value
             for lab, cond in cache_invariant(new._cache, "hidden_group_col" not in carve) + sql_coupling(new._cache, state, sel, new._ast):
                 vc.require(p.pc, cond, lab, wit)
+            vc.require(p.pc, z3.BoolVal(parent_same), "M6: the verb changed the metadata of its INPUT table (the parent's columns() / grouping no longer agree with its frame)", wit)
         return vc.outcome()
 
     return run
@@ -227,6 +244,7 @@ def run_step_polars(pre_factory, label, fn):
 
         def body():
             t = pre.table()
+            s0 = _snap(t._cache)
             with TS.polars_step([pre]) as real_compile:
                 try:
                     new = fn(pre, t)
@@ -236,7 +254,7 @@ def run_step_polars(pre_factory, label, fn):
                 df, name_in_df, select, _ = state
                 exported = df.select(*(name_in_df[u] for u in select))
                 acc = ([c.name for c in new], len(new), verbs_mod.columns()(new), new.__dir__(), [n in new for n in list(new._cache.name_to_uuid.keys())])
-                return ("ok", new, state, exported, acc)
+                return ("ok", new, state, exported, acc, _same_snap(s0, _snap(t._cache)))
 
         paths = explore(body, base_pc=pre.facts + extra, catch=(Exception,))
         vc = VC(f"[{pre.skel}] {label}: Cache after the verb satisfies M1 and is coupled (J, P) with the state computed by polars.compile_ast; the export select list is well formed")
@@ -248,9 +266,10 @@ def run_step_polars(pre_factory, label, fn):
             if p.value[0] == "rejected":
                 vc.queries += 1
                 continue
-            _, new, state, exported, acc = p.value
+            _, new, state, exported, acc, parent_same = p.value
             for lab, cond in cache_invariant(new._cache, "hidden_group_col" not in carve) + polars_coupling(new._cache, state, new._ast):
                 vc.require(p.pc, cond, lab, wit)
+            vc.require(p.pc, z3.BoolVal(parent_same), "M6: the verb changed the metadata of its INPUT table (the parent's columns() / grouping no longer agree with its frame)", wit)
             # M4 accessors
             names = list(new._cache.name_to_uuid.keys())
             vc.require(p.pc, z3.And(TS.seq_eq(acc[0], names), z3.BoolVal(acc[1] == len(names)), TS.seq_eq(acc[2], names), TS.seq_eq(acc[3], names), z3.BoolVal(all(acc[4]))), "M4: iteration / len / columns() / dir / in disagree with name_to_uuid", wit)
@@ -330,7 +349,18 @@ def make_replayer(skel, label, fn, backend):
             out = (new >> pdt.export(pdt.Polars())).columns
         except Exception as e:  # noqa: BLE001
             return {"reproduced": True, "text": f"{desc}: accepted by the verb, columns()={cols}, but export on {backend} raises {type(e).__name__}: {str(e)[:200]}"}
-        return {"reproduced": list(out) != list(cols), "text": f"{desc}: columns()={cols}, exported frame columns on {backend}={list(out)}"}
+        if list(out) != list(cols):
+            return {"reproduced": True, "text": f"{desc}: columns()={cols}, exported frame columns on {backend}={list(out)}"}
+        # M6: the input table after the derivation
+        try:
+            sib = cp.tbl >> pdt.summarize(zz__=pdt.count())
+            scols = sib >> pdt.columns()
+            sout = (sib >> pdt.export(pdt.Polars())).columns
+            if list(scols) != list(sout):
+                return {"reproduced": True, "text": f"{desc}: after deriving `{label}` from it, the INPUT table >> summarize(zz__=count()) reports columns()={scols} but exports {list(sout)} on {backend}"}
+        except Exception as e:  # noqa: BLE001
+            return {"reproduced": True, "text": f"{desc}: after deriving `{label}` from it, the INPUT table >> summarize(..) raises {type(e).__name__}: {str(e)[:160]}"}
+        return {"reproduced": False, "text": f"{desc}: columns()={cols}, exported frame columns on {backend}={list(out)}"}
 
     return replay
 
